@@ -92,8 +92,19 @@ def check(model, rep):
     an = SPAnalysis(model)
     n_writers = 0
     for fi in an.public_methods():
-        writes_local = any(isinstance(n, (ast.Assign, ast.AugAssign)) and any('joints_local' in src(t) and src(t).startswith('self.') for t in
-                           (n.targets if isinstance(n, ast.Assign) else [n.target])) for n in walk_own(fi.node))
+        def stores_local(f_, seen):
+            if f_.qualname in seen:
+                return False
+            seen.add(f_.qualname)
+            for n in walk_own(f_.node):
+                if isinstance(n, (ast.Assign, ast.AugAssign)) and any('joints_local' in src(t) and src(t).startswith('self.') for t in
+                                                                      (n.targets if isinstance(n, ast.Assign) else [n.target])):
+                    return True
+                if isinstance(n, ast.Call) and isinstance(n.func, ast.Attribute) and src(n.func.value) == 'self' and n.func.attr.startswith('_') \
+                        and n.func.attr in sp.methods and stores_local(sp.methods[n.func.attr], seen):
+                    return True          # the replacement sits in a private helper of the class
+            return False
+        writes_local = stores_local(fi, set())
         if not writes_local:
             continue
         n_writers += 1
@@ -118,7 +129,11 @@ def check(model, rep):
     rep.rule('R09.3', 'FK / IK / move / spinCustom end coherent (result written back through _IKHelper with the stored poses); Raphson call shape')
     coherence(model, rep, an, 'R09.3', only={'FK', 'IK', 'move', 'spinCustom', 'randomPos', '__init__'})
     fr = sp.methods.get('_FKRaphson')
-    kc = [c for c in walk_own(fr.node) if isinstance(c, ast.Call) and src(c.func).endswith('SPFKinSpaceR')]
+    if fr is None:
+        raise AnalysisError('anchor vanished: SP._FKRaphson')
+    # the kernel call and the write-back may sit in private helpers: analyse the method with those inlined (structure only)
+    fr_flat = _pe.flatten({n_: f_.node for n_, f_ in sp.methods.items()}, fr.node, depth=2, stop=('_IKHelper',), impure=True)
+    kc = [c for c in walk_own(fr_flat) if isinstance(c, ast.Call) and src(c.func).endswith('SPFKinSpaceR')]
     for c in kc:
         a = [src(x).replace(' ', '') for x in c.args]
         def lineage(e):
@@ -145,10 +160,10 @@ def check(model, rep):
             rep.ob('R09.3', fr, src(c)[:80], False, 'SPFKinSpaceR needs (bottom table, top table); argument 2 derives from %s and argument 3 from %s'
                    % (sorted(lb) or 'no joint table', sorted(lt) or 'no joint table'), line=c.lineno)
     rep.floor('R09.3', 'Raphson kernel call sites', len(kc), 2)
-    ilr = Inliner(fr)
-    sol = {n.targets[0].elts[0].id for n in walk_own(fr.node) if isinstance(n, ast.Assign) and isinstance(n.value, ast.Call) and src(n.value.func).endswith('SPFKinSpaceR')
+    ilr = Inliner(fr, node=fr_flat)
+    sol = {n.targets[0].elts[0].id for n in walk_own(fr_flat) if isinstance(n, ast.Assign) and isinstance(n.value, ast.Call) and src(n.value.func).endswith('SPFKinSpaceR')
            and isinstance(n.targets[0], ast.Tuple) and isinstance(n.targets[0].elts[0], ast.Name)}
-    wb = [c for c in walk_own(fr.node) if isinstance(c, ast.Call) and src(c.func) == 'self._IKHelper']
+    wb = [c for c in walk_own(fr_flat) if isinstance(c, ast.Call) and src(c.func) == 'self._IKHelper']
     bp = fr.params[2]
     ok = len(sol) == 1 and len(wb) == 1 and len(wb[0].args) == 2
     got = '?'
